@@ -302,11 +302,100 @@ static void run_thr(const Args &a, long cs, bool conv) {
 	for (int t = 0; t < NT; t++) { distinct(hash_mix(seqd[t], t)); if (failed[t] || thrd[t] != seqd[t]) { viol(std::string(conv ? "C14:convolve" : "C17:grideval") + ":result-differs-when-run-concurrently-with-calls-on-other-tables", "{\"threw\":" + std::to_string(failed[t]) + ",\"table\":" + sp[t].brief() + "}"); break; } }
 }
 
+// ================================================================ C06hist / C14hist / C15hist / C17hist: the judged operation after a random history
+// History independence: whatever a table has been through (permutations, convolutions, serialisation round trips, moves, refused requests), the next
+// operation must give exactly - bit for bit - what it gives on a freshly loaded table with the same observable content. The per-operation oracles above
+// work on freshly loaded tables; this pass extends them to tables with a history (stale strides / extents / periods / scratch state left by an earlier call).
+static Spec full_spec_of(const Table &T) {
+	Spec s = spec_of(T);
+	for (unsigned d = 0; d < T.get_ndim(); d++) { s.extents.push_back(T.lower_extent(d)); s.extents.push_back(T.upper_extent(d)); s.periods.push_back(T.get_period(d)); }
+	for (size_t i = 0; i < T.get_naux_values(); i++) { const char *k = T.get_aux_key(i); const char *v = T.get_aux_value(k); s.aux.push_back({k, v ? v : ""}); }
+	return s;
+}
+static std::string rtrim(std::string v) { while (!v.empty() && v.back() == ' ') v.pop_back(); return v; }
+// first observable difference between two tables ("" = none): every getter, operator==, and evaluation through the table and the evaluator object
+static std::string table_diff(const Table &A, const Table &B, Rng &r, int npts) {
+	if (A.get_ndim() != B.get_ndim()) return "ndim"; unsigned nd = A.get_ndim();
+	for (unsigned d = 0; d < nd; d++) {
+		if (A.get_order(d) != B.get_order(d)) return "order"; if (A.get_nknots(d) != B.get_nknots(d)) return "nknots"; if (A.get_ncoeffs(d) != B.get_ncoeffs(d)) return "naxes";
+		if (memcmp(A.get_knots(d), B.get_knots(d), 8 * A.get_nknots(d))) return "knots"; if (A.get_stride(d) != B.get_stride(d)) return "strides";
+		if (!biteq(A.lower_extent(d), B.lower_extent(d)) || !biteq(A.upper_extent(d), B.upper_extent(d))) return "extents"; if (!biteq(A.get_period(d), B.get_period(d))) return "periods";
+	}
+	if (A.get_ncoeffs() != B.get_ncoeffs()) return "ncoeffs"; if (memcmp(A.get_coefficients(), B.get_coefficients(), 4 * A.get_ncoeffs())) return "coefficients";
+	if (A.get_naux_values() != B.get_naux_values()) return "aux-count";
+	for (size_t i = 0; i < A.get_naux_values(); i++) { if (strcmp(A.get_aux_key(i), B.get_aux_key(i))) return "aux-key-order"; if (rtrim(A.get_aux_value(A.get_aux_key(i))) != rtrim(B.get_aux_value(B.get_aux_key(i)))) return "aux-value"; }
+	bool nan = false; for (uint64_t i = 0; i < A.get_ncoeffs(); i++) if (std::isnan(A.get_coefficients()[i])) nan = true;
+	if (!nan && (!(A == B) || !(B == A))) return "operator==";
+	std::vector<double> x(nd); std::vector<int> ca(nd), cb(nd); auto EA = A.get_evaluator<float>(); auto EB = B.get_evaluator<float>();
+	for (int p = 0; p < npts; p++) {
+		for (unsigned d = 0; d < nd; d++) { const double *k = A.get_knots(d); uint64_t nk = A.get_nknots(d); x[d] = r.coin(0.2) ? k[r.below(nk)] : k[0] + (k[nk - 1] - k[0]) * (r.U() * 1.1 - 0.05); }
+		bool fa = A.searchcenters(x.data(), ca.data()), fb = B.searchcenters(x.data(), cb.data()); if (fa != fb || (fa && ca != cb)) return "searchcenters";
+		if (!biteq(A(x.data()), B(x.data()))) return "call-operator"; if (!biteq(EA(x.data(), 0), EB(x.data(), 0))) return "evaluator";
+		if (!fa) continue;
+		if (!biteq(A.ndsplineeval<double>(x.data(), ca.data(), 0), B.ndsplineeval<double>(x.data(), cb.data(), 0))) return "ndsplineeval";
+		unsigned m = (unsigned)r.below(1u << std::min(nd, 6u)); if (!biteq(A.ndsplineeval<double>(x.data(), ca.data(), m), B.ndsplineeval<double>(x.data(), cb.data(), m))) return "ndsplineeval(derivative)";
+		if (nd < 8) { std::vector<double> ga(nd + 1), gb(nd + 1); A.ndsplineeval_gradient(x.data(), ca.data(), ga.data()); B.ndsplineeval_gradient(x.data(), cb.data(), gb.data()); if (memcmp(ga.data(), gb.data(), 8 * (nd + 1))) return "gradient"; }
+		count("hist:evaluations-compared");
+	}
+	return "";
+}
+static uint64_t sparse_digest(const photospline::ndsparse &n) { uint64_t h = hash_mix(5, n.rows); h = hash_mix(h, n.ndim); for (size_t d = 0; d < n.ndim; d++) h = hash_mix(h, n.ranges[d]); for (size_t q = 0; q < n.rows; q++) { for (size_t d = 0; d < n.ndim; d++) h = hash_mix(h, n.i[d][q]); h = hash_d(h, n.x[q]); } return h; }
+static std::vector<size_t> rand_perm(Rng &r, unsigned nd) { std::vector<size_t> p(nd); std::iota(p.begin(), p.end(), 0); for (int i = (int)nd - 1; i > 0; i--) std::swap(p[i], p[r.below(i + 1)]); return p; }
+static bool rand_kernel(Rng &r, const Table &T, unsigned &dim, std::vector<double> &tau) { // a convolution that keeps the table small and the order <= 5
+	unsigned nd = T.get_ndim(); dim = (unsigned)r.below(nd); int n = r.range(2, 3); if (T.get_order(dim) + n - 1 > 5) return false;
+	uint64_t newax = T.get_nknots(dim) * n - (T.get_order(dim) + n - 1) - 1; if (T.get_ncoeffs() / T.get_ncoeffs(dim) * newax > 6000) return false;
+	double span = T.get_knot(dim, T.get_nknots(dim) - 1) - T.get_knot(dim, 0); tau.clear(); double y = -0.13 * span * r.U(); for (int i = 0; i < n; i++) { tau.push_back(y); y += span * (0.02 + 0.1 * r.U()); }
+	return true;
+}
+static void run_hist(const Args &a, long cs, const std::string &judged) {
+	Rng r(a.seed, judged.c_str(), cs);
+	int nd = r.range(1, 4); Spec s; size_t tot = 1;
+	for (int d = 0; d < nd; d++) { unsigned o = (unsigned)r.below(4); int nk = 2 * o + 2 + (int)r.below(4) + (d == 0 ? 1 : 0); s.order.push_back(o); s.knots.push_back(gen_knots(r, o, nk, r.coin(0.25) ? 3 : 1, 1.0, r.U() * 4 - 2, false)); tot *= (size_t)(nk - o - 1); s.periods.push_back(r.coin(0.5) ? 0.0 : 0.25 * (d + 1)); }
+	s.coef.resize(tot); for (auto &c : s.coef) c = r.coin(0.2) ? 0.f : (float)(r.U() - 0.4);
+	if (r.coin(0.5)) add_custom_extents(r, s);
+	int naux = (int)r.below(4); for (int i = 0; i < naux; i++) s.aux.push_back({i == 1 ? "A_LONGER_KEYWORD" : "KEY" + std::to_string(i), i == 2 ? "3.5" : "value " + std::to_string(i)});
+	s.flavor = "hist";
+	std::unique_ptr<Table> T(new Table); if (!load(*T, s)) { viol(prop_id() + ":load:well-formed-table-rejected", s.full_json()); return; }
+	std::string hist; int nops = r.range(1, 5);
+	for (int op = 0; op < nops; op++) {
+		switch (r.below(9)) {
+		case 0: case 1: { std::vector<size_t> p = rand_perm(r, T->get_ndim()); hist += "permute" + jarr(p) + ";"; phase_log("history: permuteDimensions"); T->permuteDimensions(p); break; }
+		case 2: case 3: { unsigned dim; std::vector<double> tau; if (!rand_kernel(r, *T, dim, tau)) break; bool rep = false; for (uint64_t i = 1; i < T->get_nknots(dim); i++) if (T->get_knot(dim, i) == T->get_knot(dim, i - 1)) rep = true; if (rep) break; // repeated knots in the convolved dimension: recorded C14 finding (NaN coefficients)
+			hist += "convolve(dim" + std::to_string(dim) + "," + std::to_string(tau.size()) + "knots);"; phase_log("history: convolve"); T->convolve(dim, tau.data(), tau.size()); break; }
+		case 4: { hist += "roundtrip(mem);"; phase_log("history: write_fits_mem/read_fits_mem"); auto w = T->write_fits_mem(); std::unique_ptr<Table> N(new Table); N->read_fits_mem(w.first, w.second); free(w.first); T = std::move(N); break; }
+		case 5: { hist += "move;"; phase_log("history: move construction"); std::unique_ptr<Table> N(new Table(std::move(*T))); T = std::move(N); break; }
+		case 6: { hist += "refused-requests;"; phase_log("history: refused requests"); std::vector<size_t> p(T->get_ndim(), 0); if (T->get_ndim() == 1) p[0] = 1; try { T->permuteDimensions(p); } catch (std::exception &) { } double kn[2] = {0.5, -0.5}; try { T->convolve(0, kn, 2); } catch (std::exception &) { } try { T->convolve(T->get_ndim(), kn, 2); } catch (std::exception &) { } break; }
+		case 7: { hist += "grideval;"; phase_log("history: grideval"); std::vector<std::vector<double>> g(T->get_ndim()); for (unsigned d = 0; d < T->get_ndim(); d++) for (int i = 0; i < 3; i++) g[d].push_back(T->get_knot(d, 0) + (T->get_knot(d, T->get_nknots(d) - 1) - T->get_knot(d, 0)) * r.U()); auto res = T->grideval(g); break; }
+		default: { hist += "write_key;"; phase_log("history: write_key/remove_key"); T->write_key("HISTKEY", (int)r.below(100)); if (r.coin(0.5)) T->remove_key("KEY0"); break; }
+		}
+		bool fin = true; for (uint64_t i = 0; i < T->get_ncoeffs(); i++) if (!std::isfinite(T->get_coefficients()[i])) fin = false; if (!fin) { note("hist:history-produced-non-finite-coefficients(skipped)"); return; }
+	}
+	// the fresh twin: same observable content, no history
+	Spec fs = full_spec_of(*T); fs.flavor = "hist-twin"; Table F; if (!load(F, fs)) { viol(prop_id() + ":" + judged + ":table-with-a-history-cannot-be-reloaded-from-its-observable-content", "{\"history\":" + jstr(hist) + ",\"table\":" + s.brief() + "}"); return; }
+	std::string hj = "{\"history\":" + jstr(hist) + ",\"start\":" + s.full_json() + "}"; context(hj);
+	{ std::string d0 = table_diff(*T, F, r, 4); if (!d0.empty()) { note("hist:twin-differs-before-the-judged-operation:" + d0); if (a.verbose) fprintf(stderr, "twin differs: %s\n", d0.c_str()); return; } }
+	count("hist:histories"); count("hist:history-length:" + std::to_string(nops)); distinct(hash_mix(hash_str(hist), s.hash()));
+	std::string key;
+	if (judged == "C15hist") { std::vector<size_t> p = rand_perm(r, T->get_ndim()); phase_log("judged: permuteDimensions"); T->permuteDimensions(p); F.permuteDimensions(p); key = "permuteDimensions"; count("hist:judged-permutations"); }
+	else if (judged == "C14hist") { unsigned dim; std::vector<double> tau; if (!rand_kernel(r, *T, dim, tau)) { count("hist:no-admissible-convolution"); return; } phase_log("judged: convolve"); bool ta = false, tb = false; try { T->convolve(dim, tau.data(), tau.size()); } catch (std::exception &) { ta = true; } try { F.convolve(dim, tau.data(), tau.size()); } catch (std::exception &) { tb = true; } key = "convolve"; count("hist:judged-convolutions"); if (ta != tb) { viol("C14:convolve:after-a-history:refusal-differs-from-the-freshly-loaded-table", hj); return; } if (ta) return; }
+	else if (judged == "C17hist") { std::vector<std::vector<double>> g(T->get_ndim()); for (unsigned d = 0; d < T->get_ndim(); d++) { int np = r.range(1, 5); for (int i = 0; i < np; i++) g[d].push_back(r.coin(0.2) ? T->get_knot(d, r.below(T->get_nknots(d))) : T->get_knot(d, 0) + (T->get_knot(d, T->get_nknots(d) - 1) - T->get_knot(d, 0)) * (r.U() * 1.2 - 0.1)); }
+		phase_log("judged: grideval"); auto ra = T->grideval(g); auto rb = F.grideval(g); count("hist:judged-grid-evaluations"); if (sparse_digest(*ra) != sparse_digest(*rb)) { viol("C17:grideval:after-a-history:differs-from-the-freshly-loaded-table", hj); return; } key = "grideval"; }
+	else { phase_log("judged: write_fits_mem"); auto wa = T->write_fits_mem(); auto wb = F.write_fits_mem(); bool padded = false; for (size_t i = 0; i < T->get_naux_values(); i++) if (strcmp(T->get_aux_value(T->get_aux_key(i)), F.get_aux_value(F.get_aux_key(i)))) padded = true; // a value set through write_key has no trailing blanks, the twin's (read from a file) may: "values may gain trailing blanks only"
+		bool same = wa.second == wb.second && (padded || memcmp(wa.first, wb.first, wa.second) == 0); count("hist:judged-serialisations"); if (padded) count("hist:serialisations-compared-after-reading-back-only(aux-values-differ-in-trailing-blanks)"); else count("hist:bytes-compared", (long)wa.second);
+		if (same && padded) { Table R1, R2; R1.read_fits_mem(wa.first, wa.second); R2.read_fits_mem(wb.first, wb.second); std::string d2 = table_diff(R1, R2, r, 4); if (!d2.empty()) { viol("C06:write_fits_mem:after-a-history:reads-back-different-from-the-freshly-loaded-table:" + d2, hj); free(wa.first); free(wb.first); return; } }
+		if (!same) { viol("C06:write_fits_mem:after-a-history:bytes-differ-from-those-of-the-freshly-loaded-table", hj); free(wa.first); free(wb.first); return; }
+		Table R; R.read_fits_mem(wa.first, wa.second); free(wa.first); free(wb.first); std::string d1 = table_diff(R, *T, r, 4); if (!d1.empty()) { viol("C06:round-trip:after-a-history:" + d1, hj); return; } key = "write_fits_mem"; }
+	std::string d = table_diff(*T, F, r, 8);
+	if (!d.empty()) viol(prop_id() + ":" + key + ":after-a-history:differs-from-the-freshly-loaded-table:" + d, hj);
+	if (cs % 40 == 0) sample("{\"judged\":" + jstr(key) + ",\"history\":" + jstr(hist) + ",\"table\":" + s.brief() + "}");
+}
+
 int main(int argc, char **argv) {
 	Args a = parse_args(argc, argv);
 	open_out(a.outpath);
 	for (long cs = a.from; cs < a.to; cs++) {
 		begin_case(cs);
+		if (a.prop.size() == 7 && a.prop.substr(3) == "hist") { std::string j = a.prop; prop_id() = j.substr(0, 3); run_hist(a, cs, j); continue; }
 		if (a.prop == "C14") run_C14(a, cs);
 		else if (a.prop == "C15") run_C15(a, cs);
 		else if (a.prop == "C17") run_C17(a, cs);
